@@ -89,6 +89,9 @@ var c06Patterns = []string{"*", "k*", "?", "k?", "k[lh]", "k[^lh]*", "k[a-z]1", 
 
 func c06Keyspace(t *rapid.T) kit.Argv {
 	k1, k2 := c06AnyKey(t), c06AnyKey(t)
+	if rapid.IntRange(0, 4).Draw(t, "samekey") == 0 {
+		k2 = k1 // source and destination are the same name
+	}
 	switch rapid.IntRange(0, 13).Draw(t, "ks") {
 	case 0:
 		return kit.A("KEYS", pick(t, "pat", c06Patterns...))
